@@ -230,13 +230,16 @@ func c09R2(env *c06Env) {
 		}
 		g := c.P.GraphOf(fi)
 		li := core.Locks(g)
+		// a helper that never takes pc.mu itself and whose every call site (module-wide, direct and synchronous,
+		// on the receiver whose mu is held) holds pc.mu exclusively runs under the lock
+		underCallers := c09CalledUnderMu(c, fi, 0)
 		held := func(n int) bool {
 			for inst, mode := range li.In[n] {
 				if li.ClassOf[inst] == "PeerConnection.mu" && mode == "W" {
 					return true
 				}
 			}
-			return false
+			return underCallers
 		}
 		// writes inside function literals are not in g
 		ast.Inspect(fi.Decl.Body, func(x ast.Node) bool {
@@ -477,4 +480,98 @@ func c09Exclusive(g *core.Graph, n, m int) bool {
 		succ = append(succ, e.To)
 	}
 	return !g.Reach(succ, nil, nil)[m]
+}
+
+// c09CalledUnderMu reports whether fi is an unexported PeerConnection method that performs no lock operation on
+// PeerConnection.mu itself and whose every use in the module is a direct, synchronous call `x.f(…)` at a node where
+// `x.mu` is held in write mode (or inside a caller that itself qualifies, depth <= 2). No use at all => false.
+func c09CalledUnderMu(c *Ctx, fi *core.FuncInfo, depth int) bool {
+	if depth > 2 || fi.Obj.Exported() {
+		return false
+	}
+	sig := fi.Obj.Type().(*types.Signature)
+	if sig.Recv() == nil || !c06IsNamed(sig.Recv().Type(), c.P.Named("", "PeerConnection")) {
+		return false
+	}
+	g := c.P.GraphOf(fi)
+	if g == nil {
+		return false
+	}
+	for _, op := range core.Locks(g).Ops {
+		if op.Class == "PeerConnection.mu" {
+			return false // manages the lock itself: judged by its own lockset
+		}
+	}
+	// lock operations hidden in function literals of the helper
+	bad := false
+	ast.Inspect(fi.Decl.Body, func(x ast.Node) bool {
+		if se, ok := x.(*ast.SelectorExpr); ok {
+			if fv := core.FieldOf(fi.Pkg.TypesInfo, se); fv != nil && fv == c.P.Field("", "PeerConnection", "mu") {
+				bad = true
+			}
+		}
+		return true
+	})
+	if bad {
+		return false
+	}
+	uses := 0
+	for _, caller := range c.P.AllFuncs() {
+		if caller.Decl.Body == nil || caller.Pkg != fi.Pkg {
+			continue
+		}
+		info := caller.Pkg.TypesInfo
+		n := 0
+		ast.Inspect(caller.Decl.Body, func(x ast.Node) bool {
+			if id, ok := x.(*ast.Ident); ok && info.Uses[id] == types.Object(fi.Obj) {
+				n++
+			}
+			return true
+		})
+		if n == 0 {
+			continue
+		}
+		uses += n
+		cg := c.P.GraphOf(caller)
+		cli := core.Locks(cg)
+		callerUnder := -1 // lazily: does the caller itself run under the lock?
+		judged := 0
+		for _, nd := range cg.Nodes {
+			if nd.Ast == nil {
+				continue
+			}
+			_, isGo := nd.Ast.(*ast.GoStmt)
+			_, isDefer := nd.Ast.(*ast.DeferStmt)
+			for _, call := range core.CallsIn(nd.Ast) {
+				if core.Callee(info, call) != fi.Obj.Origin() {
+					continue
+				}
+				judged++
+				if isGo || isDefer {
+					return false
+				}
+				rv := c06Recv(info, call)
+				inst := core.CanonExpr(rv)
+				ok := inst != "" && cli.In[nd.ID][inst+".mu"] == "W" && cli.ClassOf[inst+".mu"] == "PeerConnection.mu"
+				if !ok {
+					// the caller may itself be a helper that always runs under its receiver's lock, calling on that receiver
+					if callerUnder < 0 {
+						callerUnder = 0
+						if c09CalledUnderMu(c, caller, depth+1) {
+							callerUnder = 1
+						}
+					}
+					csig := cg.Sig()
+					ok = callerUnder == 1 && csig != nil && csig.Recv() != nil && core.VarOf(info, rv) == csig.Recv()
+				}
+				if !ok {
+					return false
+				}
+			}
+		}
+		if judged != n {
+			return false // a use that is not a plain call in the caller's own body (method value, function literal)
+		}
+	}
+	return uses > 0
 }
